@@ -159,4 +159,15 @@ CHECKS = {
         trusted_base=TB,
         assumptions=[],
     ),
+    "C12": dict(
+        packs=["c12"], level="proof",
+        explanation="Bit-provenance abstract interpretation (each result bit is 0, 1, a copy of one input bit, or unknown) of new / channel accessors / From<Raw> / Into<Raw> / into_storage / to_be_bytes / to_le_bytes for all 14 colour types, callees inlined from their MIR. "
+                    "Obligations per type: O1 raw->colour->raw only clears unused bits, O2 colour->raw->colour is the identity on every value a constructor can produce (class invariant computed from the constructors), O3 the raw value fits BITS_PER_PIXEL, "
+                    "O4 new keeps each channel modulo its width in disjoint contiguous fields and the accessors return it, O5 documented Rgb/Bgr bit order, O6 storage and both byte serialisations expose the same bit vector. The domain is exact for this shift/mask/cast code, so the verdict covers all values; an unknown bit leaves the obligation undischarged.",
+        claim="Proves the raw round-trip, masking, channel layout and serialisation clauses for every colour type and every value.",
+        note="Trusted: rustc's MIR and evaluated constants, the bit-domain transfer functions (and/or/xor/shift/cast/add on disjoint supports, byte (de)composition), inlining of crate-local callees; BinaryColor (a two-valued enum) is decided by complete decision tables.",
+        technique="abstract interpretation with a bit-provenance domain over inlined MIR origin trees",
+        trusted_base=TB,
+        assumptions=[],
+    ),
 }
